@@ -21,19 +21,19 @@ func init() {
 
 	register(&core.Rule{ID: "C15.1", Prop: "C15", MinSites: 3,
 		Desc: "every next() implementation returns an element of the receiver's eventLoops slice (index expression or range variable over it)",
-		Run: runC15_1})
+		Run:  runC15_1})
 	register(&core.Rule{ID: "C15.2", Prop: "C15", MinSites: 3,
 		Desc: "the index into eventLoops is `v % size` with v non-negative on every path under the target's int width",
-		Run: runC15_2})
+		Run:  runC15_2})
 	register(&core.Rule{ID: "C15.3", Prop: "C15", MinSites: 2,
 		Desc: "round-robin: nextIndex is incremented exactly once per call, after it was used as the index",
-		Run: runC15_3})
+		Run:  runC15_3})
 	register(&core.Rule{ID: "C15.4", Prop: "C15", MinSites: 2,
 		Desc: "source-address hash: next and hash write no field or global; register appends the loop, assigns its idx and increments size together",
-		Run: runC15_4})
+		Run:  runC15_4})
 	register(&core.Rule{ID: "C15.5", Prop: "C15", MinSites: 3,
 		Desc: "least-connections shape: initial candidate eventLoops[0] with its count; range over the remaining elements; candidate and minimum are replaced together and only on `count < minimum`",
-		Run: runC15_5})
+		Run:  runC15_5})
 }
 
 func lbNexts(c *core.Ctx) []*fn {
@@ -156,6 +156,42 @@ func nonNegative(c *core.Ctx, f *fn, e ast.Expr, depth int) (bool, string) {
 		if o, ok := f.Info.Uses[x].(*types.Var); ok && !o.IsField() {
 			if d := defOf(f.Info, f.Decl.Body, o); d != nil {
 				return nonNegative(c, f, d, depth+1)
+			}
+			// several plain assignments (e.g. one per branch): every one of them must be non-negative;
+			// a `var v T` declaration contributes the zero value
+			var defs []ast.Expr
+			plain := true
+			ast.Inspect(f.Decl.Body, func(n ast.Node) bool {
+				switch y := n.(type) {
+				case *ast.AssignStmt:
+					for i, l := range y.Lhs {
+						if flow.ObjOf(f.Info, l) != types.Object(o) {
+							continue
+						}
+						if (y.Tok != token.ASSIGN && y.Tok != token.DEFINE) || len(y.Lhs) != len(y.Rhs) {
+							plain = false
+						} else {
+							defs = append(defs, y.Rhs[i])
+						}
+					}
+				case *ast.IncDecStmt:
+					if flow.ObjOf(f.Info, y.X) == types.Object(o) {
+						plain = false
+					}
+				case *ast.UnaryExpr:
+					if y.Op == token.AND && flow.ObjOf(f.Info, y.X) == types.Object(o) {
+						plain = false
+					}
+				}
+				return true
+			})
+			if plain && len(defs) > 1 {
+				for _, d := range defs {
+					if nn, why := nonNegative(c, f, d, depth+1); !nn {
+						return false, why
+					}
+				}
+				return true, "every assignment is non-negative"
 			}
 		}
 	}
